@@ -34,6 +34,8 @@ type rawServer struct {
 	replies map[string][]byte // keyed by the client correlation... we key by connection order instead
 	next    chan []byte
 	lastReq chan []byte
+	// splitAt: the next reply is written in two pieces, the first `splitAt` bytes, a pause, the rest (0 = in one piece)
+	splitAt chan int
 }
 
 func newRawServer(cert tls.Certificate) (*rawServer, error) {
@@ -41,7 +43,7 @@ func newRawServer(cert tls.Certificate) (*rawServer, error) {
 	if err != nil {
 		return nil, err
 	}
-	s := &rawServer{ln: ln, next: make(chan []byte, 1), lastReq: make(chan []byte, 1)}
+	s := &rawServer{ln: ln, next: make(chan []byte, 1), lastReq: make(chan []byte, 1), splitAt: make(chan int, 1)}
 	go func() {
 		for {
 			c, err := ln.Accept()
@@ -66,7 +68,18 @@ func newRawServer(cert tls.Certificate) (*rawServer, error) {
 				default:
 				}
 				reply := <-s.next
-				_, _ = c.Write(reply)
+				split := 0
+				select {
+				case split = <-s.splitAt:
+				default:
+				}
+				if split > 0 && split < len(reply) {
+					_, _ = c.Write(reply[:split])
+					time.Sleep(15 * time.Millisecond)
+					_, _ = c.Write(reply[split:])
+				} else {
+					_, _ = c.Write(reply)
+				}
 				// then close: a cut-off reply is followed by EOF
 			}(c)
 		}
@@ -216,6 +229,7 @@ func runC14(r *Result, d *drv.Driver, tier string, seed int64, replay string) {
 		reply []byte
 		kind  string
 		dv    bool
+		split int // deliver the reply in two pieces, cut here
 	}
 	var cases []tc
 	for i := 0; i < n; i++ {
@@ -294,6 +308,35 @@ func runC14(r *Result, d *drv.Driver, tier string, seed int64, replay string) {
 			}
 		}
 	}
+	// replies whose strings carry padding (length not a multiple of 8): cut at every offset inside the padding of every string
+	// (the reply then ends inside an item: no reply at all), and - whole - delivered in two pieces with the boundary at every
+	// offset inside the padding (a reply is a reply however the transport fragments it)
+	for i, op := range []kmip.Enum{kmip.OPERATION_LOCATE, kmip.OPERATION_ACTIVATE, kmip.OPERATION_GET} {
+		resp := kmip.Response{Header: kmip.ResponseHeader{Version: kmip.ProtocolVersion{Major: 1, Minor: 4}, TimeStamp: time.Unix(1, 0), BatchCount: 1},
+			BatchItems: []kmip.ResponseBatchItem{{Operation: op, UniqueID: []byte{9, 9, 9}, ResultStatus: kmip.RESULT_STATUS_SUCCESS}}}
+		switch i {
+		case 0:
+			resp.BatchItems[0].ResponsePayload = kmip.LocateResponse{UniqueIdentifiers: []string{"key-41", "key-42"}}
+		case 1:
+			resp.BatchItems[0].ResponsePayload = kmip.ActivateResponse{UniqueIdentifier: "x"}
+		default:
+			resp.BatchItems[0].ResultStatus, resp.BatchItems[0].ResultReason, resp.BatchItems[0].ResultMessage = kmip.RESULT_STATUS_OPERATION_FAILED, kmip.RESULT_REASON_ITEM_NOT_FOUND, "no such key"
+		}
+		b := encodeResponse(resp)
+		if b == nil {
+			continue
+		}
+		for _, nd := range mut.All(mut.Parse(b)) {
+			if (nd.Typ != 7 && nd.Typ != 8) || nd.Len%8 == 0 {
+				continue
+			}
+			for off := nd.Off + 8 + int(nd.Len); off < nd.End; off++ {
+				cases = append(cases, tc{op: op, reply: b[:off], kind: "pad-cut"})
+				cases = append(cases, tc{op: op, reply: b, kind: "pad-split", split: off})
+			}
+			cases = append(cases, tc{op: op, reply: b, kind: "pad-split", split: nd.End})
+		}
+	}
 	// Discover Versions specials: success without payload, payload of another type
 	for _, p := range []interface{}{nil, kmip.ActivateResponse{UniqueIdentifier: "x"}, kmip.DiscoverVersionsResponse{}, kmip.DiscoverVersionsResponse{ProtocolVersions: []kmip.ProtocolVersion{{Major: 1, Minor: 4}}}} {
 		op := kmip.OPERATION_DISCOVER_VERSIONS
@@ -320,6 +363,9 @@ func runC14(r *Result, d *drv.Driver, tier string, seed int64, replay string) {
 			if err := cl.Connect(); err != nil {
 				reals[i] = "connect-failed"
 				return
+			}
+			if c.split > 0 {
+				srv.splitAt <- c.split
 			}
 			srv.next <- c.reply
 			if c.dv {
